@@ -282,7 +282,7 @@ fn small_delta(r: &mut Rng) -> BigInt { BigInt::from(r.below(9) as i64 - 4) }
 fn rand_big(r: &mut Rng, n: &BigInt) -> BigInt {
     match r.below(4) {
         0 => BigInt::from(r.below(8)) % n,
-        1 => { let x = n - 1 - BigInt::from(r.below(8)); if x.sign() == Sign::Minus { zero() } else { x } }
+        1 => { let x: BigInt = n - BigInt::from(1 + r.below(8)); if x.sign() == Sign::Minus { zero() } else { x } }
         _ => { let k = (n.bits() / 64 + 2) as usize; let l: Vec<u64> = (0..k).map(|_| r.next()).collect(); limbs_to_int(&l) % n }
     }
 }
@@ -335,7 +335,8 @@ fn target_pair<F: PF>(r: &mut Rng) -> Option<(BigInt, BigInt)> {
     let kmax: BigInt = (&b * (&bd - 1)) >> t;
     if kmax < BigInt::from(1) { return None; }
     let k = rand_big(r, &kmax) + 1;
-    let a = ((k << t) + &b - 1) / &b + BigInt::from(r.below(5) as i64 - 2);
+    let num: BigInt = k << t;
+    let a: BigInt = (num + &b - BigInt::from(1)) / &b + BigInt::from(r.below(5) as i64 - 2);
     if a.sign() == Sign::Minus || a >= bd { return None; }
     Some((a, b))
 }
@@ -345,7 +346,8 @@ fn target_sq<F: PF>(r: &mut Rng) -> Option<BigInt> {
     let kmax: BigInt = ((&bd - 1) * (&bd - 1)) >> t;
     if kmax < BigInt::from(1) { return None; }
     let k = if r.below(2) == 0 { rand_big(r, &kmax) + 1 } else { (pal_int::<F>(r) % &kmax) + 1 };
-    let a = (k << t).sqrt() + BigInt::from(r.below(4) as i64 - 1);
+    let num: BigInt = k << t;
+    let a: BigInt = num.sqrt() + BigInt::from(r.below(4) as i64 - 1);
     if a.sign() == Sign::Minus || a >= bd { return None; }
     Some(a)
 }
@@ -440,4 +442,231 @@ fn five_random<F: PF>(r: &mut Rng) -> Vec<u8> {
 fn cnt_specials() -> Vec<Vec<u8>> { (0u8..=8).map(|x| vec![x]).collect() }
 fn cnt_random(r: &mut Rng) -> Vec<u8> { vec![if r.below(40) == 0 { 6 + r.below(4) as u8 } else { r.below(6) as u8 }] }
 
-// @@PART2@@
+/// pairs for equals(): identical, congruent (x, x +- q), one bit apart, independent
+fn eq_random<F: PF>(r: &mut Rng) -> Vec<u8> {
+    let q = F::modulus(); let top = pow2(nbits::<F>());
+    let mut a = el_random::<F>(r);
+    let b = match r.below(5) {
+        0 => a.clone(),
+        1 | 2 => { let x = le_to_int(&a); let y = if x >= q { x - &q } else if &x + &q < top { x + &q } else { x }; int_to_le(&y, nbytes::<F>()) }
+        3 => { let mut w = a.clone(); let k = r.below(8 * w.len() as u64) as usize; w[k / 8] ^= 1 << (k % 8); w }
+        _ => el_random::<F>(r),
+    };
+    if r.below(2) == 0 { let mut w = b; w.extend_from_slice(&a); w } else { a.extend_from_slice(&b); a }
+}
+
+// ------------------------------------------------------------------------
+// Prime-field cases (written once for all representations).
+
+fn reg_pf<F: PF>(v: &mut Vec<Case>, prefix: &str, tag: &str) {
+    let cx = ctx::<F>();
+    let mkid = |name: &str| if tag.is_empty() { format!("{}_{}", prefix, name) } else { format!("{}_{}@{}", prefix, name, tag) };
+    let nb = nbytes::<F>();
+    let el = Op::Custom { len: Some(nb), specials: el_specials::<F>, random: el_random::<F> };
+    let pair = Op::Custom { len: Some(2 * nb), specials: pair_specials::<F>, random: pair_random::<F> };
+    let eqp = Op::Custom { len: Some(2 * nb), specials: pair_specials::<F>, random: eq_random::<F> };
+    let sq = Op::Custom { len: Some(nb), specials: sq_specials::<F>, random: sq_random::<F> };
+    let int = Op::Custom { len: Some(nb), specials: int_specials::<F>, random: int_random::<F> };
+    let vb = Op::Custom { len: None, specials: vb_specials::<F>, random: vb_random::<F> };
+    let five = Op::Custom { len: Some(5 * nb), specials: five_specials::<F>, random: five_random::<F> };
+    let cnt = Op::Custom { len: Some(1), specials: cnt_specials, random: cnt_random };
+    macro_rules! case { ($name:expr, $desc:expr, $ops:expr, |$o:ident, $c:ident| $body:expr) => {{
+        let ops: Vec<Op> = $ops; let opsc = ops.clone(); let cxc = cx.clone();
+        v.push(Case { id: mkid($name), describe: $desc, ops, run: Box::new(move |inp: &[u8]| -> Result<(), String> {
+            let $o = split(&opsc, inp).ok_or("bad input length")?; let $c = &cxc; $body }) });
+    }}; }
+
+    case!("add", "fe(a+b) == fe(a)+fe(b) mod q, all operator forms; result limbs canonical", vec![el.clone(), el.clone()], |o, c| {
+        let (a, b) = (F::mk(o[0]), F::mk(o[1]));
+        all_eq(c, &a.f_add(b), &((fe(&a) + fe(&b)) % &c.q), "add") });
+    case!("sub", "fe(a-b) == fe(a)-fe(b) mod q, all operator forms; result limbs canonical", vec![el.clone(), el.clone()], |o, c| {
+        let (a, b) = (F::mk(o[0]), F::mk(o[1]));
+        all_eq(c, &a.f_sub(b), &emod(&(fe(&a) - fe(&b)), &c.q), "sub") });
+    case!("neg", "fe(-a) == -fe(a) mod q", vec![el.clone()], |o, c| {
+        let a = F::mk(o[0]);
+        all_eq(c, &a.f_neg(), &emod(&-fe(&a), &c.q), "neg") });
+    case!("half", "2*fe(half(a)) == fe(a) mod q", vec![el.clone()], |o, c| {
+        let a = F::mk(o[0]); let r = a.f_half();
+        wf(c, &r, "half")?;
+        chk((fe(&r) * 2) % &c.q == fe(&a), || format!("half: got {} limbs {:x?}", hex(&r.enc()), r.raw())) });
+    case!("mul", "fe(a*b) == fe(a)*fe(b) mod q, all operator forms (pairs targeted at carry boundaries of the limb product)", vec![pair.clone()], |o, c| {
+        let (a, b) = (F::mk(&o[0][..nb]), F::mk(&o[0][nb..]));
+        all_eq(c, &a.f_mul(b), &((fe(&a) * fe(&b)) % &c.q), "mul") });
+    case!("square", "fe(square(a)) == fe(a)^2 mod q", vec![sq.clone()], |o, c| {
+        let a = F::mk(o[0]);
+        all_eq(c, &[a.f_square()], &((fe(&a) * fe(&a)) % &c.q), "square") });
+    case!("xsquare", "fe(xsquare(a,n)) == fe(a)^(2^n) mod q (n reduced mod 70 by the case)", vec![sq.clone(), Op::U32], |o, c| {
+        let a = F::mk(o[0]); let n = u32of(o[1]) % 70;
+        all_eq(c, &[a.f_xsquare(n)], &modpow(&fe(&a), &pow2(n), &c.q), "xsquare") });
+    case!("mulk", "fe(mulK(a)) == K*fe(a) mod q for every constant multiplier (mul2/3/4/8/16/32, mul21)", vec![el.clone()], |o, c| {
+        let a = F::mk(o[0]); let x = fe(&a);
+        for (k, r) in a.f_mulk() { all_eq(c, &[r], &((&x * BigInt::from(k)) % &c.q), &format!("mul{}", k))?; }
+        Ok(()) });
+    if F::consts()[0].f_mul_small(1).is_some() {
+        case!("mul_small", "fe(mul_small(a,k)) == k*fe(a) mod q, every 32-bit k (mul_u16: every 16-bit k)", vec![el.clone(), Op::U32], |o, c| {
+            let a = F::mk(o[0]); let (k, r) = a.f_mul_small(u32of(o[1])).unwrap();
+            all_eq(c, &[r], &((fe(&a) * BigInt::from(k)) % &c.q), &format!("mul_small({:#x})", k)) });
+    }
+    case!("encode", "encode == canonical LE encoding of the represented value (value computed from the input limbs)", vec![el.clone()], |o, c| {
+        let a = F::mk(o[0]); let e = a.enc(); let want = int_to_le(&in_val::<F>(c, o[0]), F::EL);
+        if let Some(l) = a.raw() { if F::RAWIN && limbs_to_int(&l) != le_to_int(o[0]) % &c.q { return Err(format!("limb constructor/accessor mismatch {:x?}", l)); } }
+        if let Some(e2) = a.enc_alt() { if e2 != e { return Err(format!("encode {} != encode32 {}", hex(&e), hex(&e2))); } }
+        chk(e == want, || format!("encode: got {} want {}", hex(&e), hex(&want))) });
+    case!("iszero", "iszero == 0xFFFFFFFF iff the value is 0 mod q (every representation) else 0", vec![el.clone()], |o, c| {
+        let a = F::mk(o[0]); let r = a.f_iszero();
+        let want = if in_val::<F>(c, o[0]).sign() == Sign::NoSign { 0xFFFFFFFFu32 } else { 0 };
+        chk(r == want, || format!("iszero: got {:08x} want {:08x}", r, want)) });
+    case!("equals", "equals == 0xFFFFFFFF iff the values are equal mod q (every representation) else 0", vec![eqp.clone()], |o, c| {
+        let (a, b) = (F::mk(&o[0][..nb]), F::mk(&o[0][nb..]));
+        let want = if in_val::<F>(c, &o[0][..nb]) == in_val::<F>(c, &o[0][nb..]) { 0xFFFFFFFFu32 } else { 0 };
+        let (r1, r2) = (a.f_equals(b), b.f_equals(a));
+        chk(r1 == want && r2 == want, || format!("equals: got {:08x}/{:08x} want {:08x}", r1, r2, want)) });
+    case!("cond", "set_cond / select / cswap copy or exchange exactly per ctl in {0, 0xFFFFFFFF}", vec![el.clone(), el.clone(), Op::Ctl], |o, _c| {
+        let (a, b, ctl) = (F::mk(o[0]), F::mk(o[1]), u32of(o[2]));
+        if ctl != 0 && ctl != 0xFFFFFFFF { return Ok(()); }
+        let mut t = a; t.f_set_cond(&b, ctl);
+        chk(same(&t, if ctl == 0 { &a } else { &b }), || format!("set_cond: got {} {:x?}", hex(&t.enc()), t.raw()))?;
+        let t = F::f_select(&a, &b, ctl);
+        chk(same(&t, if ctl == 0 { &a } else { &b }), || format!("select: got {} {:x?}", hex(&t.enc()), t.raw()))?;
+        let (mut s, mut t) = (a, b); F::f_cswap(&mut s, &mut t, ctl);
+        let (ws, wt) = if ctl == 0 { (&a, &b) } else { (&b, &a) };
+        chk(same(&s, ws) && same(&t, wt), || format!("cswap: got {} / {}", hex(&s.enc()), hex(&t.enc()))) });
+    case!("decode_ct", "strict decoders (decode_ct, set_decode_ct on a non-zero value, decode, decode32, set_decode32): (value, 0xFFFFFFFF) iff right length and LE(buf) < q, else (zero, 0)", vec![vb.clone()], |o, c| {
+        let buf = o[0]; let n = le_to_int(buf);
+        let check = |r: &F, cc: u32, what: &str, valid: bool| -> Result<(), String> {
+            if valid {
+                wf(c, r, what)?;
+                chk(cc == 0xFFFFFFFF && fe(r) == n && r.enc()[..] == buf[..], || format!("{}(valid): cc={:08x} value {}", what, cc, hex(&r.enc())))
+            } else {
+                let rz = r.raw().map(|l| l.iter().all(|&w| w == 0)).unwrap_or(true);
+                chk(cc == 0 && fe(r).sign() == Sign::NoSign && r.f_iszero() == 0xFFFFFFFF && rz, || format!("{}(invalid): cc={:08x} value {} limbs {:x?}", what, cc, hex(&r.enc()), r.raw()))
+            }
+        };
+        let valid = buf.len() == F::EL && n < c.q;
+        let valid32 = buf.len() == 32 && n < c.q;
+        let prev = F::from_ints(0x0123_4567_89AB_CDEF, 0)[3];
+        let (r, cc) = F::f_decode_ct(buf); check(&r, cc, "decode_ct", valid)?;
+        let mut r = prev; let cc = r.f_set_decode_ct(buf); check(&r, cc, "set_decode_ct", valid)?;
+        match F::f_decode(buf) {
+            Some(r) => { chk(valid, || format!("decode accepted {}", hex(buf)))?; check(&r, 0xFFFFFFFF, "decode", true)?; }
+            None => chk(!valid, || format!("decode rejected canonical {}", hex(buf)))?,
+        }
+        if let Some((r, cc)) = F::f_decode32(buf) { check(&r, cc, "decode32", valid32)?; }
+        let mut r = prev; if let Some(cc) = r.f_set_decode32(buf) { check(&r, cc, "set_decode32", valid32)?; }
+        Ok(()) });
+    case!("decode_reduce", "fe(decode_reduce(buf)) == LE(buf) mod q for every length 0..=150", vec![vb.clone()], |o, c| {
+        let r = F::f_decode_reduce(o[0]);
+        all_eq(c, &[r], &(le_to_int(o[0]) % &c.q), "decode_reduce") });
+    case!("roundtrip", "decode(encode(a)) == a (same value, same limbs where canonical) with status 0xFFFFFFFF", vec![el.clone()], |o, c| {
+        let a = F::mk(o[0]); let e = a.enc();
+        let (r, cc) = F::f_decode_ct(&e);
+        wf(c, &r, "roundtrip")?;
+        let lim = if F::MONTY { same(&r, &a) } else { true };
+        chk(cc == 0xFFFFFFFF && fe(&r) == fe(&a) && r.f_equals(a) == 0xFFFFFFFF && lim && r.enc() == e, || format!("roundtrip: enc {} -> cc {:08x} {}", hex(&e), cc, hex(&r.enc()))) });
+    case!("from_int", "from_i32/u32/i64/u64/i128/u128(x) == x mod q; ZERO/ONE/MINUS_ONE", vec![Op::U64, Op::U64], |o, c| {
+        let (lo, hi) = (u64of(o[0]), u64of(o[1]));
+        let x = ((hi as u128) << 64) | lo as u128;
+        let want = [BigInt::from(lo as i32), BigInt::from(lo as u32), BigInt::from(lo as i64), BigInt::from(lo), BigInt::from(x as i128), BigInt::from(x)];
+        let got = F::from_ints(lo, hi);
+        for i in 0..6 { all_eq(c, &[got[i]], &emod(&want[i], &c.q), ["from_i32", "from_u32", "from_i64", "from_u64", "from_i128", "from_u128"][i])?; }
+        let k = F::consts();
+        all_eq(c, &[k[0]], &zero(), "ZERO")?; all_eq(c, &[k[1]], &BigInt::from(1), "ONE")?; all_eq(c, &[k[2]], &(&c.q - 1), "MINUS_ONE") });
+    case!("from_w64", "w64le/w64be/from_w64le/from_w64be(limbs) == integer mod q for every limb pattern (>= q, 2q, 2^255, all-ones ...)", vec![int.clone()], |o, c| {
+        let l = limbs_of(o[0]);
+        all_eq(c, &F::w64(&l), &(le_to_int(o[0]) % &c.q), "w64") });
+    case!("div", "(a/b)*b == a when b != 0; a/0 == 0; all operator forms (+ invert where public)", vec![el.clone(), el.clone()], |o, c| {
+        let (a, b) = (F::mk(o[0]), F::mk(o[1])); let (x, y) = (fe(&a), fe(&b));
+        for (i, r) in a.f_div(b).iter().enumerate() {
+            wf(c, r, "div")?;
+            let ok = if y.sign() == Sign::NoSign { fe(r).sign() == Sign::NoSign } else { (fe(r) * &y) % &c.q == x };
+            if !ok { return Err(format!("div (form {}): got {} limbs {:x?}", i, hex(&r.enc()), r.raw())); }
+        }
+        if let Some(r) = b.f_invert() {
+            wf(c, &r, "invert")?;
+            let ok = if y.sign() == Sign::NoSign { fe(&r).sign() == Sign::NoSign } else { (fe(&r) * &y) % &c.q == BigInt::from(1) };
+            if !ok { return Err(format!("invert: got {}", hex(&r.enc()))); }
+        }
+        Ok(()) });
+    case!("batch_invert", "batch_invert == element-wise inversion, zeros preserved; lengths 0..=5 and around the internal block size", vec![cnt.clone(), five.clone()], |o, c| {
+        let n = match o[0][0] { x @ 0..=5 => x as usize, 6 => F::BATCH - 1, 7 => F::BATCH, 8 => F::BATCH + 1, 9 => F::BATCH + 5, x => (x % 6) as usize };
+        let mut xs: Vec<F> = (0..n).map(|i| {
+            let e = &o[1][(i % 5) * nb..(i % 5 + 1) * nb];
+            if i < 5 || (i / 5) % 3 == 0 { F::mk(e) } else { let mut w = e.to_vec(); let l0 = u64of(&w).wrapping_add(i as u64); w[..8].copy_from_slice(&l0.to_le_bytes()); F::mk(&w) }
+        }).collect();
+        let orig = xs.clone();
+        F::f_batch_invert(&mut xs);
+        for i in 0..n {
+            wf(c, &xs[i], "batch_invert")?;
+            let (x, y) = (fe(&orig[i]), fe(&xs[i]));
+            let ok = if x.sign() == Sign::NoSign { y.sign() == Sign::NoSign } else { (&x * &y) % &c.q == BigInt::from(1) };
+            if !ok { return Err(format!("batch_invert n={} i={}: in {} out {}", n, i, hex(&orig[i].enc()), hex(&xs[i].enc()))); }
+        }
+        Ok(()) });
+    case!("legendre", "legendre(a) in {0,1,-1} per Euler's criterion", vec![el.clone()], |o, c| {
+        let a = F::mk(o[0]); let r = a.f_legendre();
+        let e = modpow(&fe(&a), &((&c.q - 1) / 2), &c.q);
+        let want = if e.sign() == Sign::NoSign { 0 } else if e == BigInt::from(1) { 1 } else { -1 };
+        chk(r == want, || format!("legendre: got {} want {}", r, want)) });
+    if F::consts()[1].f_sqrt().is_some() {
+        case!("sqrt", "sqrt: status all-ones iff a is a square; root has even lsb and squares to a; else (zero, 0)", vec![el.clone()], |o, c| {
+            let a = F::mk(o[0]); let x = fe(&a);
+            let (y, r) = a.f_sqrt().unwrap();
+            wf(c, &y, "sqrt")?;
+            let yv = fe(&y);
+            if modpow(&x, &((&c.q - 1) / 2), &c.q) != &c.q - 1 {
+                chk(r == 0xFFFFFFFF && (&yv * &yv) % &c.q == x && !yv.bit(0), || format!("sqrt(QR): r={:08x} y {}", r, hex(&y.enc())))
+            } else {
+                chk(r == 0 && yv.sign() == Sign::NoSign, || format!("sqrt(nonQR): r={:08x} y {}", r, hex(&y.enc())))
+            } });
+    }
+    if F::consts()[1].f_sqrt_ext().is_some() {
+        case!("sqrt_ext", "sqrt_ext (q = 3 mod 4): (sqrt(a), all-ones) if a is a square else (sqrt(-a), 0); root has even lsb", vec![el.clone()], |o, c| {
+            let a = F::mk(o[0]); let x = fe(&a);
+            let (y, r) = a.f_sqrt_ext().unwrap();
+            wf(c, &y, "sqrt_ext")?;
+            let yv = fe(&y); let y2 = (&yv * &yv) % &c.q;
+            if modpow(&x, &((&c.q - 1) / 2), &c.q) != &c.q - 1 {
+                chk(r == 0xFFFFFFFF && y2 == x && !yv.bit(0), || format!("sqrt_ext(QR): r={:08x} y {}", r, hex(&y.enc())))
+            } else {
+                chk(r == 0 && y2 == emod(&-x, &c.q) && !yv.bit(0), || format!("sqrt_ext(nonQR): r={:08x} y {}", r, hex(&y.enc())))
+            } });
+    }
+    if F::consts()[0].f_split128().is_some() {
+        case!("split", "split_vartime: k*c1' == c0' mod n, c1' != 0, (c0',c1') = (c0 + a*2^128, c1 + b*2^128) with |a|,|b| <= 0/1/2 per modulus size; zero -> (0,1); no panic", vec![el.clone()], |o, c| {
+            let a = F::mk(o[0]); let k = fe(&a);
+            let (c0, c1) = a.f_split128().unwrap();
+            if k.sign() == Sign::NoSign { return chk(c0 == 0 && c1 == 1, || format!("split(0) = ({}, {})", c0, c1)); }
+            let q2 = &c.q * &c.q;
+            let rg: i32 = if q2 <= BigInt::from(3) << 506 { 0 } else if q2 <= BigInt::from(3) << 510 { 1 } else { 2 };
+            for da in -rg..=rg { for db in -rg..=rg {
+                let d0 = BigInt::from(c0) + BigInt::from(da) * pow2(128);
+                let d1 = BigInt::from(c1) + BigInt::from(db) * pow2(128);
+                if emod(&d1, &c.q).sign() != Sign::NoSign && emod(&(&k * &d1 - &d0), &c.q).sign() == Sign::NoSign { return Ok(()); }
+            } }
+            Err(format!("split: k={:x} c0={} c1={} (no a,b in -{}..={} fits)", k, c0, c1, rg, rg)) });
+    }
+    if F::consts()[0].f_split_bytes().is_some() {
+        case!("split", "split_vartime (gfgen): k*c1 == c0 mod p, c1 != 0 mod p, 3*c^4 < 4*p^2 for both; no panic", vec![el.clone()], |o, c| {
+            let a = F::mk(o[0]); let k = fe(&a);
+            let (b0, b1) = a.f_split_bytes().unwrap();
+            let (c0, c1) = (BigInt::from_signed_bytes_le(&b0), BigInt::from_signed_bytes_le(&b1));
+            let small = |x: &BigInt| BigInt::from(3) * x * x * x * x < BigInt::from(4) * &c.q * &c.q;
+            chk(emod(&c1, &c.q).sign() != Sign::NoSign && emod(&(&k * &c1 - &c0), &c.q).sign() == Sign::NoSign && small(&c0) && small(&c1),
+                || format!("split: k={:x} c0={} c1={}", k, c0, c1)) });
+    }
+}
+
+// @@PART3@@
+
+pub fn register(v: &mut Vec<Case>) {
+    reg_pf::<crrl::field::GFp256>(v, "modint", "gfp256");
+    reg_pf::<crrl::ed25519::Scalar>(v, "modint", "ed25519scalar");
+    reg_pf::<crrl::p256::Scalar>(v, "modint", "p256scalar");
+    reg_pf::<crrl::secp256k1::Scalar>(v, "modint", "secp256k1scalar");
+    reg_pf::<crrl::jq255e::Scalar>(v, "modint", "jq255escalar");
+    reg_pf::<crrl::jq255s::Scalar>(v, "modint", "jq255sscalar");
+    reg_pf::<crrl::gls254::Scalar>(v, "modint", "gls254scalar");
+    reg_pf::<GFsecp256k1>(v, "gfsecp256k1", "");
+    reg_pf::<GF448>(v, "gf448", "");
+    reg_pf::<Ed448Scalar>(v, "gfgen", "ed448scalar");
+}
